@@ -64,6 +64,8 @@ def run_call(c, variant, A):
 def gen_call(rng):
     A = 4
     n = rng.randint(1, 4); Ln = rng.randint(4, 14)
+    if rng.random() < 0.05:
+        Ln = rng.choice([127, 128, 129, 140, 200, 260])      # beyond the range of an 8-bit counter (int8 is the library's one-hot dtype)
     x = [[rng.randrange(A) for _ in range(Ln)] for _ in range(n)]
     op = rng.choice(["substitution", "deletion", "deletion", "insertion", "insertion"])
     rows = []
@@ -76,6 +78,8 @@ def gen_call(rng):
             rows += [[i, p] for p in set(pos)]
         if rng.random() < 0.85 and not rows:
             rows = [[0, rng.randrange(Ln)]]
+        if rows and rng.random() < 0.3:
+            rows.append(list(rng.choice(rows)))          # a position named twice (merged variant tables): still one deletion
     elif op == "insertion":
         for i in range(n):
             k = rng.choice([0, 1, 1, 2, 3])
@@ -94,6 +98,8 @@ def gen_call(rng):
             rows.append(list(rows[0]))          # a repeated row
     if rng.random() < 0.05:
         rows.append([n, 0] + ([1] if op != "deletion" else []))
+    elif op != "deletion" and rng.random() < 0.06:
+        rows.append([rng.randrange(n), rng.randrange(Ln), A + rng.randint(0, 1)])     # a character beyond the alphabet
     return dict(op=op, x=x, rows=rows, left=rng.random() < 0.5), A
 
 
